@@ -195,6 +195,15 @@ def main(tier: str) -> int:
         cases.append(case)
         traces.append({"id": len(cases) - 1, "rows": terms.jrows_of_frames(frames), "mode": "set", "exp": [terms.jitem(terms.norm_item(x)) for x in dict.fromkeys(want)]})
         case["back"] = {"Graph.parse": _safe(parse_into_store, data, False), "parse_jelly_flat": _safe(impl.parse, "rdflib", data, "flat")}
+    # an empty Graph / Dataset through every rdflib entry point
+    for ec in campaign.empty_sequence_cases("rdflib"):
+        if ec.exc:
+            run.violation({"clause": "serializer-raised", **ec.key}, ec.exc, ec.replay)
+        elif ec.verdict and ec.verdict["verdict"] != "ok":
+            run.violation({"clause": "tier1:" + ec.verdict["verdict"], **ec.key}, f"an empty input gives {len(ec.data)} bytes, which are not a valid stream denoting nothing: "
+                          f"{ec.verdict['verdict']}; parsing them back: {str(ec.back.get('flat'))[:80]}", ec.replay)
+        elif ec.back.get("flat") != []:
+            run.violation({"clause": "round-trip-differs", **ec.key}, f"an empty input parses back as {str(ec.back.get('flat'))[:80]}", ec.replay)
     verdicts = tlc.judge(traces)
     jst = verdicts.pop("__stats__")
     samples = []
